@@ -44,3 +44,9 @@ fn vec_replace_ev<'a>(v: &mut Vec<Ev<'a>>, i: usize, x: Ev<'a>) -> (r: Ev<'a>)
 fn vec_extend_ev<'a>(v: &mut Vec<Ev<'a>>, other: Vec<Ev<'a>>)
     ensures final(v)@ == old(v)@ + other@,
 { v.extend(other) }
+
+// `Cow::into_owned`
+#[verifier::external_body]
+fn cowstr_into_owned(v: CowStr<'_>) -> (r: String)
+    ensures r@ == v@,
+{ unimplemented!() }
